@@ -262,6 +262,10 @@ KeysOf(D) == { d[1] : d \in D }
 AddrsOfKey(D, key) == { d[2] : d \in { d \in D : d[1] = key } }
 AddrOfKey(D, key) == CHOOSE a \in AddrsOfKey(D, key) : TRUE
 IsExtKey(D, key) == \E d \in D : d[1] = key /\ d[3]
+\* a key both defined at address 0 and declared external does not clash (the declaration counts as
+\* address 0); whether it then counts as external is left open by the property (the code keeps
+\* whichever came first).  AllExtKey: declared external and defined nowhere.
+AllExtKey(D, key) == \A d \in D : d[1] = key => d[3]
 FirstSrcOfKey(D, key) == LET SS == { d[4] : d \in { d \in D : d[1] = key } } IN CHOOSE s \in SS : \A t \in SS : s <= t
 
 UsesLabel(n) == n.m = 2 /\ n.k # ".external"
@@ -289,6 +293,7 @@ CondNoLabelClashI(D) == ClashKeys(D) = {}
 UndefinedRefs(prog, D) == { k \in 1..Len(prog) : UsesLabel(prog[k].n) /\ Upper(prog[k].n.lbl) \notin KeysOf(D) }
 ExternalRefs(prog, D)  == { k \in 1..Len(prog) : UsesLabel(prog[k].n) /\ PcRel(prog[k].n) /\ Upper(prog[k].n.lbl) \in KeysOf(D)
                                                  /\ IsExtKey(D, Upper(prog[k].n.lbl)) }
+DefExternalRefs(prog, D) == { k \in ExternalRefs(prog, D) : AllExtKey(D, Upper(prog[k].n.lbl)) }
 TooFarRefs(prog, X, D) == { k \in 1..Len(prog) : UsesLabel(prog[k].n) /\ PcRel(prog[k].n) /\ OpenAt(X, k)
                                                  /\ \E d \in D : d[1] = Upper(prog[k].n.lbl) /\ ~d[3] /\ d[2] >= 0
                                                        /\ ~FitsS(OffsetOf(d[2], AddrAt(X, k)), OffBits(prog[k].n)) }
@@ -311,6 +316,10 @@ KindsBlocksI(prog, X) ==
   \cup (IF BlockOverlapPairs(prog, X) # {} THEN {"OverlappingBlocks"} ELSE {})
 
 WellFormedI(prog, X, D) == CondInBlockI(prog, X) /\ CondNoLabelClashI(D) /\ CondOperandsI(prog, X, D) /\ CondBlocksI(prog, X)
+\* the same with the open case read the other way (a key also defined in the file is not external):
+\* WellFormedI => accepted, accepted => WellFormedHiI; the two differ only for such keys in PC-relative operands
+WellFormedHiI(prog, X, D) == /\ CondInBlockI(prog, X) /\ CondNoLabelClashI(D) /\ CondBlocksI(prog, X)
+                             /\ UndefinedRefs(prog, D) = {} /\ DefExternalRefs(prog, D) = {} /\ TooFarRefs(prog, X, D) = {}
 ViolatedKindsI(prog, X, D) == KindsInBlockI(prog, X) \cup (IF CondNoLabelClashI(D) THEN {} ELSE {"OverlappingLabels"})
                               \cup KindsOperandsI(prog, X, D) \cup KindsBlocksI(prog, X)
 WellFormed(prog) == LET X == Info(prog) D == LabelDefsI(prog, X) IN WellFormedI(prog, X, D)
@@ -350,6 +359,8 @@ LineSpecI(prog, X, nl) ==
 RelSpecI(prog, X, D) ==
   { <<AddrAt(X, k), Upper(prog[k].n.lbl)>> : k \in { k \in 1..Len(prog) : prog[k].n.k = ".fill" /\ prog[k].n.m = 2
                                                           /\ Upper(prog[k].n.lbl) \in KeysOf(D) /\ IsExtKey(D, Upper(prog[k].n.lbl)) } }
+\* (for a key that is also defined in the file the entry is optional: see AllExtKey)
+RelSpecLoI(prog, X, D) == { e \in RelSpecI(prog, X, D) : AllExtKey(D, e[2]) }
 RelOfObj(rel) == { <<a, rel[a]>> : a \in DOMAIN rel }
 
 \* C26: the labels an error of the given kind may point at (upper-cased)
